@@ -14,6 +14,26 @@ CLAIMED = {
          "Thorough enumerates every constructible (method, degree) and integrates every real spherical harmonic with l <= degree (exhaustive: true); quick runs all grids below a cost threshold plus a seeded quarter of the rest and always the two known-finding probes. Oracle: own normalised Legendre recurrence (self-tested against mpmath), tolerance 1e-9 (healthy <= 3.3e-12, defective data >= 5e-5).",
          "Trusted: the reference harmonics in pbt/oracles/sph.py (self-test vs mpmath on every run), file names as the list of constructible grids. Two data defects are known findings keyed on (method, degree).",
          "DESIGN.md section 3, C02"),
+ "C08": ("Hypothesis-generated degrees (0..400) and structured angles (poles, equator, 1e-15..1e-3 neighbourhoods, 2pi images, azimuth in [-20,20]) against an independent extended-precision normalised recurrence, re-validated per run against a 40-digit mpmath definition; difference quotients, addition theorem, explicit Cartesian table, conversion round trip",
+         "Both harmonics implementations, the derivative routine, solid_harmonics and convert_cart_to_sph are compared with definition-level references under a stated eps x condition-scale error model (measured worst 2.5 units of 300 allowed); about 8 200 quick / 71 000 thorough generated cases per run.",
+         "Trusted: numpy cos/sin/arctan2/longdouble arithmetic, mpmath, scipy eval_legendre, the documented convention (no Condon-Shortley phase, Horton-2 order). Polar angles in (pi,2pi) are outside the asserted region; within |sin phi| <= 1e-3 of a pole only finiteness of the polar derivative is asserted (documented convention).",
+         "DESIGN.md section 3, C08"),
+ "C14": ("Hypothesis-generated (type, dimension, grid, centres incl. grid points and near-axis points, order) with every returned row recomputed as a plain quadrature sum over independently evaluated basis functions and an own Horton-order enumeration; order generator enumerated exhaustively for orders 0..12; dipole helper in neutral / homonuclear / mass-table modes",
+         "Every entry and the order list of Grid.moments are decided against direct quadrature for the four moment types in 1-3 dimensions; 26 000 quick / 380 000 thorough cases; error model eps*(order+2)*sum|w f|*bound with 200 units allowed (measured <= 1.9).",
+         "Trusted: the property-statement definitions (pure-radial = |r-R|^n x solid harmonic; the docstring's n+1 is not followed), 0^0 = 1, own real solid harmonics (pbt/oracles/sph.py), an 8-digit principal-isotope mass table for Z <= 18.",
+         "DESIGN.md section 3, C14"),
+ "C18": ("Hypothesis-generated domain lists / repeat mode with mixed point dimensions, separable and non-separable integrands and chunk sizes around 1, total, total+-1, against an explicit odometer loop over index tuples (fsum) and the product of 1-D sums",
+         "Every route of MultiDomainGrid.integrate (vectorised, point-wise, each chunk size) and .size/.points/.weights (tuple by tuple, documented order) are compared with the nested-loop definition; 10 000 quick / 150 000 thorough cases.",
+         "Trusted: 'same order' = first domain slowest, last fastest as documented; the vectorised calling convention taken from ngrid.py and its tests; summation error model 20*eps*(total+20)*sum|wF|.",
+         "DESIGN.md section 3, C18"),
+ "C19": ("model-based history testing: Hypothesis generates one JSON list of steps per case (constructions with cache on/off, in-place edits of returned arrays, atomic/shell/molecular grids, transform calls in any order, Coulomb loader calls), interpreted against the library and a model with global caches reset per case and the invariant observed after every step; whole history shrinks as one value",
+         "About 24k histories quick / 250k thorough per seed, 40-45 % non-trivial (a construction after an in-place edit of the same key; transform sequences starting with inverse/deriv), plus 70 pinned regression histories for the repaired cache-aliasing defect and every first-call order of the b-scaled transforms.",
+         "Trusted: shipped .npz/JSON data read by an independent loader; closed forms retyped from the transform docstrings; own spherical harmonics; rotated shells compared through the Gram matrix. Only white-box access: emptying the module caches at the start of a case.",
+         "DESIGN.md section 3, C19"),
+ "C20": ("differential aliasing testing over a registry of 177 public operations: each runs on fresh writable arguments and again under an aliasing pattern (read-only arrays, one object for two parameters, calls repeated on shared lists/dicts, callbacks returning their argument or a memoised (read-only) array) with recursive byte-wise snapshots of every caller-side object and callback result; deterministic operation x pattern sweep plus Hypothesis sampling",
+         "About 25k cases quick / 404k thorough per seed, > 80 % aliased/read-only/non-fresh callbacks; every operation is exercised under every applicable pattern in every run; 72 pinned cases for the two repaired defects.",
+         "Trusted: NumPy tobytes/dtype/shape for snapshots; the aliased run is compared with the run on fresh copies (equivalence, not absolute correctness); 'caller data' = objects created through the argument factory incl. arrays receivers were built from; the global NumPy RNG is pinned before each call.",
+         "DESIGN.md section 3, C20"),
  "C12": ("exhaustive enumeration of the finite request space + Hypothesis-generated request sequences, against a table oracle read from the data file names",
          "Every integer degree and size request 0..max+3 of the four methods is enumerated (exhaustive for the lookup clause), every table entry is constructed and compared with the data file in the thorough tier, and generated sequences go through the converter, AtomGrid and from_pruned; the oracle is a linear scan over the sorted list of shipped file names, so bisect/dictionary/range slips are caught.",
          "Trusted: the file names under src/grid/data name what is supported (four unreachable extra files are listed in pbt/oracles/data_loader.py); NumPy.",
